@@ -16,6 +16,7 @@
 """
 import copy
 import json
+import os
 import random
 
 from harness import tasklib as tl
@@ -322,11 +323,13 @@ def main(ctx):
             scns.append(gen_scenario(r, "%s/%d.%d" % ("m" if masked else "u", j, k), masked))
     jobs = [{"scns": scns[j::njobs], "seed": ctx.seed * 100 + j, "cap": cap} for j in range(njobs)]
     jobs[0]["scns"] = witnesses() + jobs[0]["scns"]
-    thunks = model_runs(ctx)
-    thunks.append(lambda: run_workers("harness.drivers.c14", "work", jobs, ctx.scratch, nproc=njobs))
-    outs = parallel(thunks, max_workers=12)
-    absorb_model(ctx, outs[:-1])
-    cases = [c for res in outs[-1] for c in res]
+    # development on a shared machine: VERIF_NPROC=4 caps the check at about four processes
+    dev_cap = int(os.environ.get("VERIF_NPROC", 0))
+    nproc = max(1, dev_cap - 1) if dev_cap else njobs
+    thunks = [lambda: run_workers("harness.drivers.c14", "work", jobs, ctx.scratch, nproc=nproc)] + model_runs(ctx)
+    outs = parallel(thunks, max_workers=2 if dev_cap else 12)
+    absorb_model(ctx, outs[1:])
+    cases = [c for res in outs[0] for c in res]
     masked_ids = {c["id"] for c in cases if c["scn"].get("masked")}
     rej, why, nmask = tl.validate(ctx, "C14", cases, "main", masked_ids, selftest_want=ctx.pick(8, 40))
     for c in cases:
